@@ -1,12 +1,13 @@
 import re
 
-from . import registry, version
+from . import registry
 from .base import _DomainObject
 from .exceptions import DuplicateRegistrationError
 from .properties import (
     ListProperty, ObjectReferenceProperty, ReferenceProperty, _validate_type,
 )
 from .utils import PREFIX_21_REGEX
+from .version import DEFAULT_VERSION
 
 PROPERTY_NAME_REGEX = re.compile(r"^[a-z0-9_]{3,250}\Z")
 
@@ -80,7 +81,7 @@ def _validate_props(props_map, version, **kwargs):
     _validate_ref_props(props_map, **kwargs)
 
 
-def _register_object(new_type, version=version.DEFAULT_VERSION):
+def _register_object(new_type, version=DEFAULT_VERSION):
     """Register a custom STIX Object type.
 
     Args:
@@ -102,7 +103,7 @@ def _register_object(new_type, version=version.DEFAULT_VERSION):
         )
 
     if not version:
-        version = version.DEFAULT_VERSION
+        version = DEFAULT_VERSION
 
     _validate_props(new_type._properties, version)
 
@@ -117,7 +118,7 @@ def _register_object(new_type, version=version.DEFAULT_VERSION):
     OBJ_MAP[new_type._type] = new_type
 
 
-def _register_marking(new_marking, version=version.DEFAULT_VERSION):
+def _register_marking(new_marking, version=DEFAULT_VERSION):
     """Register a custom STIX Marking Definition type.
 
     Args:
@@ -127,7 +128,7 @@ def _register_marking(new_marking, version=version.DEFAULT_VERSION):
 
     """
     if not version:
-        version = version.DEFAULT_VERSION
+        version = DEFAULT_VERSION
 
     mark_type = new_marking._type
     _validate_type(mark_type, version)
@@ -139,7 +140,7 @@ def _register_marking(new_marking, version=version.DEFAULT_VERSION):
     OBJ_MAP_MARKING[mark_type] = new_marking
 
 
-def _register_observable(new_observable, version=version.DEFAULT_VERSION):
+def _register_observable(new_observable, version=DEFAULT_VERSION):
     """Register a custom STIX Cyber Observable type.
 
     Args:
@@ -149,7 +150,7 @@ def _register_observable(new_observable, version=version.DEFAULT_VERSION):
 
     """
     if not version:
-        version = version.DEFAULT_VERSION
+        version = DEFAULT_VERSION
 
     _validate_props(
         new_observable._properties, version,
@@ -167,7 +168,7 @@ def _register_observable(new_observable, version=version.DEFAULT_VERSION):
 
 
 def _register_extension(
-    new_extension, version=version.DEFAULT_VERSION,
+    new_extension, version=DEFAULT_VERSION,
 ):
     """Register a custom extension to any STIX Object type.
 
